@@ -267,8 +267,15 @@ c07=[]
 for i,f in enumerate(RTF):
     if f in ("key","dir","perm"): continue
     lst = 2 if f=="msgtype" else 0
-    c07.append(job("field-"+f,"rule/flags","VH_RoundTrip",["C07/"],{"shape":0,"field":i,"list":lst,"digits":10,"smalldigits":4,"strmax":2,"maxkeys":1,"sysforms":3},Q,expect=["C07/accepted-by-build"],
-       bounds=f"syscall rule with one {f} filter (every admissible operator, full-range symbolic decimal values / names / strings of 1..3 plain bytes) x action x {{no -S, -S open|execve|all, -S 0|59|1000|2047}} x 0..1 key: Build -> ToCommandLine -> flags.Parse -> Build -> ToCommandLine"))
+    wide = f in ("uid","gid","msgtype","a0")
+    if wide:
+        c07.append(job("field-"+f+"-fullrange","rule/flags","VH_RoundTrip",["C07/"],{"shape":0,"field":i,"list":lst,"digits":10,"smalldigits":4,"strmax":1,"maxkeys":0,"sysforms":1,"oneop":1},Q,expect=["C07/accepted-by-build"],
+           bounds=f"syscall rule with one {f} filter, operator '=', value of 10 symbolic decimal digits over the full uint32 range (plus -1/4294967295/root/names), no -S, no key: Build -> ToCommandLine -> flags.Parse -> Build -> ToCommandLine"))
+    narrow = f in ("msgtype","exit")  # values are looked up in name tables: one path per table entry
+    c07.append(job("field-"+f,"rule/flags","VH_RoundTrip",["C07/"],{"shape":0,"field":i,"list":lst,"digits":4,"smalldigits":3,"strmax":2,"maxkeys":0 if narrow else 1,"sysforms":1 if narrow else 3,"oneop":1 if narrow else 0},Q,expect=["C07/accepted-by-build"],
+       bounds=f"syscall rule with one {f} filter (every admissible operator, 4 symbolic decimal digits / names / strings of 1..3 plain bytes) x action x {{no -S, -S open|execve|all, -S 0|59|1000|2047}} x 0..1 key"))
+    c07.append(job("field10-"+f,"rule/flags","VH_RoundTrip",["C07/"],{"shape":0,"field":i,"list":lst,"digits":10,"smalldigits":4,"strmax":2,"maxkeys":1,"sysforms":3},T,expect=["C07/accepted-by-build"],
+       bounds=f"as field-{f} with 10 symbolic digits"))
 for (a,b) in [("uid","arch"),("arch","uid"),("path","perm"),("perm","path"),("exe","msgtype")]:
     if b=="msgtype": continue
     c07.append(job(f"two-{a}-{b}","rule/flags","VH_RoundTrip",["C07/"],{"shape":0,"field":RTF.index(a),"second":RTF.index(b),"list":0,"digits":3,"strmax":1,"maxkeys":1,"sysforms":2,"oneop":1,"realpath":1},Q,expect=["C07/accepted-by-build"],
